@@ -247,6 +247,7 @@ class RIBFamily:
     TRACE_SPEC = "TraceSpec"
     VH_CMD = "rib-run"
     FAMILY = "rib"
+    TRACE_CONSTS = '  DefaultNI = "DEFAULT"\n'
     RESET_PREFIX = '{"ev":"reset"'
 
     @staticmethod
@@ -325,7 +326,7 @@ class RIBFamily:
         return info
 
     def validate(self, ctx, trace):
-        cfg = (f'SPECIFICATION {self.TRACE_SPEC}\nCONSTANTS\n  DefaultNI = "DEFAULT"\n  TraceFile = "trace.ndjson"\n'
+        cfg = (f'SPECIFICATION {self.TRACE_SPEC}\nCONSTANTS\n{self.TRACE_CONSTS}  TraceFile = "trace.ndjson"\n'
                'POSTCONDITION TraceAccepted\nCHECK_DEADLOCK FALSE\n')
         run = ctx.tlc(self.TRACE_MODULE, None, name="validate", workers=1, cfg_text=cfg,
                       extra_files={trace: "trace.ndjson"}, timeout=3600, heap="12g")
@@ -899,3 +900,94 @@ REGISTRY["C15"] = ReconFamily("C15",
                        (dict(MaxBuild=5, TOnly=("vrf1",), TopK="T_2"), 2000, 300)]},
     exh={"quick": [dict(MaxBuild=1, PLs=("a",))], "thorough": [dict(MaxBuild=2, PLs=("a",), NHK=("1",))]},
     random_cfg={"quick": {"n": 400}, "thorough": {"n": 5000}})
+
+
+# ---------------------------------------------------------------------------
+# chk family (C17): GribiChk / GribiChk_MC / GribiChkTrace
+
+def chk_cfg(Helper="HasResult", Ids=(1, 2), Sts=("RIB", "FAILED"), Errs=("",), Dets="D_small", MaxRes=2, MaxWants=1,
+            NIs=("DEFAULT",), Kinds=("v4", "v6"), Keys=(1,), EmitOn=False, view=True, invariants=True):
+    lines = ["SPECIFICATION MCSpec", "CONSTANTS", f"  Helper = {q(Helper)}", f"  Ids = {tlaset(Ids)}", f"  Sts = {tlaset(Sts)}",
+             f"  Errs = {tlaset(Errs)}", f"  Dets <- {Dets}", f"  MaxRes = {MaxRes}", f"  MaxWants = {MaxWants}", f"  NIs = {tlaset(NIs)}",
+             f"  Kinds = {tlaset(Kinds)}", f"  Keys = {tlaset(Keys)}", f"  EmitOn = {str(EmitOn).upper()}"]
+    if invariants:
+        lines.append("INVARIANTS TypeOK CacheConsistent")
+    if EmitOn:
+        lines.append("INVARIANTS Emit")
+    lines.append("CHECK_DEADLOCK FALSE")
+    return "\n".join(lines) + "\n"
+
+
+def chk_stats(path, prop):
+    n = 0
+    distinct, nontrivial = set(), set()
+    samples = []
+    byh = collections.Counter()
+    with open(path) as fh:
+        for line in fh:
+            n += 1
+            e = json.loads(line)
+            key = vlib.sha(json.dumps(e["c"], sort_keys=True))
+            distinct.add(key)
+            byh[e["c"]["h"]] += 1
+            if e["fatal"]:           # the expected item was absent (or a test error): the interesting half
+                nontrivial.add(key)
+                if len(samples) < 3:
+                    samples.append(e)
+    return dict(segments=n, events=n, distinct=len(distinct), nontrivial=len(nontrivial), samples=samples, by_helper=dict(byh))
+
+
+class ChkFamily(RIBFamily):
+    MC_MODULE = "GribiChk_MC"
+    TRACE_MODULE = "GribiChkTrace"
+    TRACE_SPEC = "CTraceSpec"
+    TRACE_CONSTS = ""
+    VH_CMD = "chk-run"
+    FAMILY = "chk"
+    RESET_PREFIX = '{"c"'
+
+    @staticmethod
+    def cfg(**kw):
+        return chk_cfg(**kw)
+
+    @staticmethod
+    def attr(comp, ev, rec):
+        return {"C17"} if comp.startswith("chk") else set()
+
+    @staticmethod
+    def stats(path, prop):
+        return chk_stats(path, prop)
+
+    @staticmethod
+    def to_inputs(evs):
+        return evs
+
+    def vh_args(self, ctx, rc):
+        return ["-random", str(rc["n"])]
+
+    def rule(self):
+        return ("one case = one call of a real chk helper on a capturing testing.TB with inputs enumerated by TLC (GribiChk_MC, exhaustive over the bounded "
+                "domain) or generated by the seeded driver (larger domains, near-miss wants); non-trivial = the real helper reported a failure "
+                "(the wanted item was absent or the call was a test error); distinct by input")
+
+    def replay(self, ctx, path):
+        raise Infra("chk cases are replayed by re-running ./check C17 with the recorded seed")
+
+
+_CHK_HELPERS = [
+    dict(Helper="HasResult", MaxRes=2, Dets="D_small"),
+    dict(Helper="HasResultsCache", MaxRes=2, MaxWants=1, Dets="D_small", Sts=("RIB",)),
+    dict(Helper="GetResponseHasEntries", MaxRes=2, MaxWants=2, Kinds=("nh", "v4", "v6", "mpls"), NIs=("DEFAULT", "vrf1")),
+    dict(Helper="HasNErrors"),
+    dict(Helper="HasRecvClientErrorWithStatus"),
+]
+_CHK_THOROUGH = [
+    dict(Helper="HasResult", MaxRes=2, Dets="D_kinds", Errs=("", "e1")),
+    dict(Helper="HasResultsCache", MaxRes=2, MaxWants=2, Dets="D_kinds", Sts=("RIB",)),
+    dict(Helper="GetResponseHasEntries", MaxRes=3, MaxWants=2, Kinds=("nh", "nhg", "v4", "v6", "mpls"), NIs=("DEFAULT", "vrf1")),
+    dict(Helper="HasNErrors"),
+    dict(Helper="HasRecvClientErrorWithStatus"),
+]
+REGISTRY["C17"] = ChkFamily("C17", mc={"quick": _CHK_HELPERS, "thorough": _CHK_THOROUGH}, sims={"quick": [], "thorough": []},
+                            exh={"quick": _CHK_HELPERS, "thorough": _CHK_THOROUGH},
+                            random_cfg={"quick": {"n": 20000}, "thorough": {"n": 300000}})
